@@ -28,6 +28,7 @@ def device_configs(behaviours: list[str]) -> list[tuple[str, bool, str]]:
 
 
 TIMINGS = ["late", "first-with-con", "all-with-con", "refusals-with-con"]
+STALL_POINTS = 10
 
 
 def run_write(pop: tuple[tuple[str, bool, str], ...], timing: str = "late", first: str | None = None) -> tuple[list[tuple[str, str]], str]:
@@ -43,6 +44,8 @@ def run_write(pop: tuple[tuple[str, bool, str], ...], timing: str = "late", firs
             d.fast = d.behaviour == "refuse"
     outcome = "?"
     with BusWorld(devs) as w:
+        if timing.startswith("stall@"):
+            w.stall_at = int(timing[6:])
         for call, target in enumerate(([first] if first else []) + [TARGET]):
             # the population as this call finds it
             cur = tuple((str(d.address), d.prog_mode, d.behaviour) for d in devs)
@@ -96,6 +99,8 @@ def run_write(pop: tuple[tuple[str, bool, str], ...], timing: str = "late", firs
                 if len(prog) != 1 or after[prog[0]] != target:
                     viols.append((f"success-reported-without-programmed-device{tag}", ctxs))
             for name, e in [(n, e) for n, e in w.loop.task_failures() if not n.startswith("harness-")]:
+                if isinstance(e, XKNXException):
+                    continue   # a fire-and-forget T_ACK / T_Disconnect whose link-layer confirmation never came: a declared error, not C44's subject
                 viols.append((exc_sig("task-exception", e), f"{name}: {e!r}; {ctxs}"))
     seen: set[str] = set()
     return [(s, d) for s, d in viols if not (s in seen or seen.add(s))], outcome
@@ -180,6 +185,10 @@ def write_cases(thorough: bool) -> list[tuple[tuple[tuple[str, bool, str], ...],
             out.append((pop, timing, None))
         if any(b == "refuse" for _a, _pm, b in pop):
             out.append((pop, "refusals-with-con", None))
+        # the link stalls for 4 s at the k-th frame the client sends (its confirmation - and the frame itself - come late)
+        if 1 <= len(pop) <= (3 if thorough else 2) and nprog >= 1:
+            for k in range(STALL_POINTS):
+                out.append((pop, f"stall@{k}", None))
         # history: an earlier call on the same XKNX object, to each pool address (populations of <= 2 devices, thorough 3)
         if 1 <= len(pop) <= (3 if thorough else 2):
             for first in ADDRS:
@@ -232,7 +241,7 @@ def worker(k: int, n: int, thorough: bool) -> Part:
         if len(pop) > 1:
             part.nontrivial += 1
         for s, d in viols:
-            part.viol(s, d, ["write", [list(x) for x in pop], timing, first], rank=(len(pop), first is not None, TIMINGS.index(timing), i))
+            part.viol(s, d, ["write", [list(x) for x in pop], timing, first], rank=(len(pop), first is not None, TIMINGS.index(timing) if timing in TIMINGS else 9, i))
         if i < 2:
             part.sample(["write", [list(x) for x in pop], timing, first])
     sc = serial_cases()
@@ -257,7 +266,7 @@ def run(ctx: Ctx) -> None:
     ctx.rule = (
         f"the real management procedures over real Management/P2PConnection/CEMIHandler on the virtual loop against a simulated bus of devices (address in {ADDRS}, programming mode on/off, behaviour in "
         f"{BEHAVIOURS}): nm_individual_address_write(1.1.5) on ALL populations of 0..3 devices over all 30 device configurations"
-        f"{' and all 4-device populations over 3 behaviours' if ctx.thorough else ''} x the timing of the devices' answers to the broadcast read (after the client's L_Data.con, or the first / all answers in the same read as the confirmation, i.e. handled before send_broadcast returns) and, for populations of <= 2 (thorough 3) devices, the same call preceded by an nm_individual_address_write to each pool address on the SAME XKNX object (both calls judged) ({len(wc)} runs); the serial-number read/write procedures on 7 bus populations x requested serial x stray responses x answer timing (another serial, from the target "
+        f"{' and all 4-device populations over 3 behaviours' if ctx.thorough else ''} x the timing of the devices' answers to the broadcast read (after the client's L_Data.con, or the first / all answers in the same read as the confirmation, i.e. handled before send_broadcast returns) and, for populations of <= 2 (thorough 3) devices, the same call preceded by an nm_individual_address_write to each pool address on the SAME XKNX object (both calls judged), and - populations of <= 2 (thorough 3) devices with one in programming mode - a link that stalls for 4 s at the k-th frame the client sends, k = 0..9 (confirmation and frame late) ({len(wc)} runs); the serial-number read/write procedures on 7 bus populations x requested serial x stray responses x answer timing (another serial, from the target "
         "address, an address response); dmp_authorize2_r_co over ALL 16x16 (free, client) access levels. Oracle: IndividualAddressWrite is broadcast only with exactly one device in programming mode and no "
         "other present device holding the address (a device that never reacts to a connection attempt counts as absent); restarts go only to the target address; no address conflict is created; success only "
         "with the programmed device at the address; serial procedures follow only the requested serial; authorize2 returns min(free, client) and leaves the device at that level."
